@@ -175,7 +175,7 @@ Tx ==
          lostPeer == "PeerLimitLostOnNewPath" \in dev
          x == d1.size
          \* PollMtud of the model: continue the search, or start one if that is due
-         cont == g.ph = "search" /\ ProbeSizeQuinn(g.s, c.minchg) # 0
+         cont == g.ph = "search" /\ ProbeSize(g.s, c.minchg) # 0
          due == \/ g.ph = "init"
                 \/ g.ph = "done" /\ e.t >= g.tres + g.wait
                 \/ g.ph = "search" /\ ~cont /\ e.t >= g.tres + c.interval
@@ -200,7 +200,7 @@ Tx ==
          \cup Flag(x <= Upper, "ProbeExceedsUpperBound")
          \cup Flag(kn => x <= pr, "ProbeExceedsPeerLimit")
          \cup Flag(g.ph = "any" \/ cont \/ due, "SearchRestartTooEarly")
-         \cup Flag(g.ph = "any" \/ x = ProbeSizeQuinn(s0, c.minchg), "ProbeSizeNotFromSearch")
+         \cup Flag(g.ph = "any" \/ x = ProbeSize(s0, c.minchg), "ProbeSizeNotFromSearch")
      IN
        IF isp
          THEN /\ bad' = bad \cup general \cup probing
